@@ -29,6 +29,7 @@ type ReplayFile struct {
 	Config   string              `json:"config_text"`
 	Streams  map[string][]uint32 `json:"streams"`
 	Force    map[string]string   `json:"force_fault,omitempty"`
+	Generate bool                `json:"generate,omitempty"` // no recorded streams: re-generate the run from its seed
 	Expect   struct {
 		Scan    int    `json:"scan"`
 		Life    int    `json:"life"`
@@ -329,7 +330,16 @@ func WorkerMain(t *testing.T, prop, tier string, lo, hi uint64, budget time.Dura
 	rep := &WorkerReport{Property: prop, Tier: tier, SeedLo: lo, SeedHi: hi, Extra: map[string]int{}}
 	seenKeys := map[string]bool{}
 	handle := func(j job) {
+		// real-time watchdog: a run that burns wall time without finishing (a spin, or a loop of
+		// virtual sleeps) is abandoned; the parent re-runs that seed once in a fresh process and
+		// reports c20-wedge only if it hangs again.
+		marker, _ := json.Marshal(ReplayFile{V: HarnessVersion, Property: prop, Rule: "c20-wedge", Site: "real-time-watchdog", Driver: j.driver, RunSeed: j.seed, Tier: tier, Variant: j.variant, Force: j.force, Generate: true})
+		wd := time.AfterFunc(90*time.Second, func() {
+			os.WriteFile(outPath+".hang", marker, 0o644)
+			os.Exit(4)
+		})
 		res := j.run(nil, 0, st)
+		wd.Stop()
 		rep.Runs++
 		rep.Extra["runs:"+j.driver]++
 		if res.HarnessErr != "" {
@@ -482,7 +492,7 @@ func ReplayMain(t *testing.T, path string, verbose bool) (reproduced bool, msg s
 		return false, err.Error()
 	}
 	streams := rf.Streams
-	if streams == nil {
+	if streams == nil && !rf.Generate {
 		streams = map[string][]uint32{}
 	}
 	var res *RunResult
